@@ -637,7 +637,17 @@ fn apply_fault(r: &mut Rendered, fault: &Fault, pick: u64) -> Option<Expect> {
             Some(Expect::SyntaxAt(fi, li + 1))
         }
         Fault::BadEnum => {
-            r.files[fi].1[li].text = format!("{}{} \"sideways\"", indent, key_of(&line));
+            // an unknown word, or (for the two case-sensitive enumerations) a valid word in another letter case: a hand-made
+            // mutant that also accepted `mode "Forbidden"` went unnoticed
+            let key = key_of(&line);
+            let word = match (key.as_str(), li % 3) {
+                ("mode", 1) => "Forbidden",
+                ("mode", 2) => "BLOCK",
+                ("load_balancer_mode", 1) => "Round-Robin",
+                ("load_balancer_mode", 2) => "RANDOM",
+                _ => "sideways",
+            };
+            r.files[fi].1[li].text = format!("{}{} \"{}\"", indent, key, word);
             if in_noise {
                 return None;
             }
@@ -883,9 +893,9 @@ pub fn arb_model() -> impl Strategy<Value = ConfM> {
     (
         (
             proptest::option::of(prop_oneof![Just("0.0.0.0".to_string()), Just("127.0.0.1".to_string()), Just("::1".to_string()), "10\\.[0-9]{1,3}\\.0\\.1"]),
-            proptest::option::of(prop_oneof![Just(80u16), Just(443), Just(0), Just(65535), any::<u16>()]),
+            proptest::option::of(prop_oneof![Just(80u16), Just(443), Just(0), Just(1), Just(65535), any::<u16>()]),
             proptest::option::of(prop_oneof![Just(1usize), Just(32), 1usize..512]),
-            proptest::option::of(prop_oneof![Just(0u64), Just(5), 0u64..100000]),
+            proptest::option::of(prop_oneof![Just(0u64), Just(1), Just(2), Just(5), 0u64..100000]),
             proptest::option::of(arb_target()),
         ),
         proptest::option::of((proptest::option::of(proptest::collection::vec(crate::common::http::arb_ip().prop_map(|i| i.to_string()), 0..5)), proptest::option::of(any::<bool>()))),
@@ -894,7 +904,7 @@ pub fn arb_model() -> impl Strategy<Value = ConfM> {
             proptest::option::of(any::<bool>()),
             proptest::option::of(prop_oneof![3 => "[a-z]{1,8}\\.log", 1 => "[a-z]{1,4}( {1,3}|\t)[a-z]{1,4}\\.log"]),
         )),
-        proptest::option::of((proptest::option::of((prop_oneof![Just(0u64), Just(1), Just(128), 0u64..5000], unit)), proptest::option::of(prop_oneof![Just(0usize), Just(60), 0usize..100000]))),
+        proptest::option::of((proptest::option::of((prop_oneof![Just(0u64), Just(1), Just(128), 0u64..5000], unit)), proptest::option::of(prop_oneof![Just(0usize), Just(1), Just(60), 0usize..100000]))),
         proptest::collection::vec(arb_host(), 0..5),
         proptest::collection::vec(arb_route(), 0..9),
         0u8..16,
